@@ -27,7 +27,8 @@ pub fn stamp_to_local(k: u64) -> chrono::DateTime<Local> {
 }
 
 /// 3 is a legal format whose text order is not the time order (day first)
-pub const FORMATS: [&str; 4] = ["r%Y-%m-%d_%H-%M-%S", "r%Y%m%d-%H%M%S", "r%Y-%m-%d_%H-%M-%S_x", "r%d-%m-%Y_%H-%M-%S"];
+/// 4 is coarser than a second (date only): several files per name period, told apart by `.restart-NNNN`
+pub const FORMATS: [&str; 5] = ["r%Y-%m-%d_%H-%M-%S", "r%Y%m%d-%H%M%S", "r%Y-%m-%d_%H-%M-%S_x", "r%d-%m-%Y_%H-%M-%S", "r%Y-%m-%d"];
 
 #[derive(Clone, Debug)]
 pub struct SpecP {
@@ -403,6 +404,8 @@ pub struct Hist {
     /// accepted records since the last documented truncation: (bytes, stamp)
     pub recs: Vec<(Vec<u8>, u64)>,
     pub forced: bool,      // a forced rotation happened
+    pub forced_at: Vec<usize>, // … after that many accepted records (op ROT)
+    pub forced_unpositioned: bool, // … through RP/CROT (crash cases): position not recorded
     pub restarts: u64,
     pub faulty: bool,      // some op carried an injected fault
     pub lossy: bool,       // EXTRM / RESET / async-unflushed: stream oracle off
@@ -416,6 +419,10 @@ pub struct Hist {
     pub cfg_changed: bool,
 }
 impl Hist {
+    /// forced rotations whose position is known (all of them unless RP/CROT was used)
+    fn rotations_forced_total(&self) -> u64 {
+        if self.forced_unpositioned { u64::MAX } else { self.forced_at.len() as u64 }
+    }
     fn stream(&self) -> Vec<u8> {
         self.recs.iter().flat_map(|r| r.0.iter().copied()).collect()
     }
@@ -540,10 +547,17 @@ fn oracles(ctx: &mut Ctx, case_id: &str, li: usize, f: &Flw, h: &Hist, at_sync_p
     // --- size rule (C08): rotation exactly when the current file already exceeds N
     let age_inactive = rot.age.map_or(true, |a| h.recs.windows(2).all(|w| age_trunc(a, w[0].1) == age_trunc(a, w[1].1)));
     if let (Some(n), true) = (rot.max_size, age_inactive) {
-        if !h.forced {
+        // forced rotations (op ROT; their positions are known) close the file whatever its size;
+        // the file they start obeys the rule like any other
+        if !h.forced || h.forced_at.len() as u64 == h.rotations_forced_total() {
             let mut cur = 0u64;
             let mut fi = 0usize;
             for (i, (b, _)) in h.recs.iter().enumerate() {
+                let forced_here = h.forced_at.iter().filter(|p| **p == i && i > 0).count();
+                if forced_here > 0 {
+                    fi += forced_here;
+                    cur = 0;
+                }
                 if cur > n {
                     fi += 1;
                     cur = 0;
@@ -1032,7 +1046,7 @@ fn execute_inner(ctx: &mut Ctx, lines: &[String]) -> Vec<String> {
                 })));
                 let r = with_clock(now, || w.rotate());
                 flexi_logger::verif_hooks::set_point_handler(None);
-                if r.is_ok() { h.rotations += 1; h.forced = true; }
+                if r.is_ok() { h.rotations += 1; h.forced = true; h.forced_unpositioned = true; }
                 let names = rec.lock().unwrap().clone();
                 if t[0] == "CROT" { "nopoint".into() } else if names.is_empty() { "-".into() } else { names.join(",") }
             }
@@ -1057,6 +1071,7 @@ fn execute_inner(ctx: &mut Ctx, lines: &[String]) -> Vec<String> {
                 if r.is_ok() {
                     h.rotations += 1;
                     h.forced = true;
+                    h.forced_at.push(h.recs.len());
                 }
                 if r.is_ok() && ev.is_empty() { "ok".into() } else { "err".into() }
             }
